@@ -42,6 +42,9 @@ type Script struct {
 	Damage     int    `json:"damage"`     // 1-based index of a chunk file damaged before recovery (0 = none)
 	DamageKind string `json:"damageKind"` // unreadable (default) | zero
 	After      []int  `json:"after"`      // lengths of chunks persisted by a second life of the agent before recovery
+	// ids of the chunks in the order in which they are accepted (default 1..n): at a stop older chunks held in memory are
+	// written after newer ones that were spilled on arrival, so the interrupted write need not be the newest file
+	IDs []int `json:"ids"`
 }
 
 func chunkData(id int, size int) []byte {
@@ -79,7 +82,17 @@ func VictimMain(args []string) int {
 	kill := fs.String("kill", "", "kill point")
 	unit := fs.Int("unit", 1, "bytes per unit (for logging)")
 	first := fs.Int("first", 1, "id of the first chunk")
+	idsArg := fs.String("ids", "", "chunk ids in accept order, comma separated (default: first, first+1, ...)")
 	_ = fs.Parse(args)
+	idOf := func(i int) int { return i + *first }
+	if *idsArg != "" {
+		var ids []int
+		for _, x := range strings.Split(*idsArg, ",") {
+			v, _ := strconv.Atoi(x)
+			ids = append(ids, v)
+		}
+		idOf = func(i int) int { return ids[i] }
+	}
 	logger.SetLogLevel(logger.FatalLevel)
 	signal.Ignore(syscall.SIGXFSZ)
 	defs.BufferMaxNumChunksInQueue = 10
@@ -106,7 +119,7 @@ func VictimMain(args []string) int {
 	}()
 	for i, ls := range strings.Split(*lens, ",") {
 		n, _ := strconv.Atoi(ls)
-		id := fmt.Sprintf("%03d", i+*first)
+		id := fmt.Sprintf("%03d", idOf(i))
 		emitJSON("Persist", "id", id, "n", n / *unit)
 		var old syscall.Rlimit
 		if i+1 == *victim {
@@ -116,7 +129,7 @@ func VictimMain(args []string) int {
 				_ = syscall.Setrlimit(syscall.RLIMIT_FSIZE, &syscall.Rlimit{Cur: uint64(*limit), Max: old.Max})
 			}
 		}
-		buf.Accept(base.LogChunk{ID: id, Data: chunkData(i+*first, n)})
+		buf.Accept(base.LogChunk{ID: id, Data: chunkData(idOf(i), n)})
 		if i+1 == *victim {
 			inVictim = false
 			if *limit >= 0 {
@@ -236,8 +249,16 @@ func RunScript(sc Script, work string, self string) *vtrace.Tracer {
 	if sc.LimitAt >= 0 {
 		limit = sc.LimitAt * sc.Unit
 	}
+	idsArg := ""
+	if len(sc.IDs) == len(sc.Lens) {
+		parts := make([]string, len(sc.IDs))
+		for i, v := range sc.IDs {
+			parts[i] = strconv.Itoa(v)
+		}
+		idsArg = strings.Join(parts, ",")
+	}
 	code, stderr := runChild(tr, self, "cf-victim", "-dir", dir, "-lens", strings.Join(lens, ","), "-victim", strconv.Itoa(sc.Victim),
-		"-limit", strconv.Itoa(limit), "-kill", sc.KillPoint, "-unit", strconv.Itoa(sc.Unit))
+		"-limit", strconv.Itoa(limit), "-kill", sc.KillPoint, "-unit", strconv.Itoa(sc.Unit), "-ids", idsArg)
 	switch code {
 	case 0:
 		tr.Emit("VictimEnd", "killed", false)
